@@ -561,7 +561,8 @@ func (c *Ctx) enterLoop(h *ssa.BasicBlock, mp []mergePred, mpIdx []int, r string
 	// havoc
 	body := loopBody(h)
 	st := pre.clone()
-	havocAll, nonLocalStore := false, false
+	havocAll, nonLocalStore, unknownStore := false, false, false
+	var modPrefixes []string
 	modLocals := map[*ssa.Alloc]bool{}
 	for b := range body {
 		for _, in := range b.Instrs {
@@ -571,6 +572,13 @@ func (c *Ctx) enterLoop(h *ssa.BasicBlock, mp []mergePred, mpIdx []int, r string
 					modLocals[a] = true
 				} else {
 					nonLocalStore = true
+					// which heap maps can this store change? (scalar field of a heap struct /
+					// scalar slice element): then only those maps are havocked at the head
+					if pfx, ok := staticStorePrefix(x.Addr); ok {
+						modPrefixes = append(modPrefixes, pfx)
+					} else {
+						unknownStore = true
+					}
 				}
 			case *ssa.Call:
 				if !c.callIsPure(x.Common()) {
@@ -587,8 +595,21 @@ func (c *Ctx) enterLoop(h *ssa.BasicBlock, mp []mergePred, mpIdx []int, r string
 	}
 	if havocAll {
 		c.havocHeap(st, c.isImmutableMap)
-	} else if nonLocalStore {
+	} else if nonLocalStore && unknownStore {
 		c.havocHeap(st, c.isGhostMap)
+	} else if nonLocalStore {
+		keep := func(name string) bool {
+			if c.isGhostMap(name) {
+				return true
+			}
+			for _, p := range modPrefixes {
+				if name == p || strings.HasPrefix(name, p+".") {
+					return false
+				}
+			}
+			return true
+		}
+		c.havocHeap(st, keep)
 	}
 	for a := range modLocals {
 		if _, ok := st.locals[a]; ok {
